@@ -94,9 +94,16 @@ def user_codecs():
     from dds.structures import CodecProtocol, FileCodecProtocol, ProtocolRef, SupportedType
     from dds.structures_utils import SupportedTypeUtils as STU
 
+    import enum
+
+    class Refs(str, enum.Enum):
+        # the references of the user's codecs kept in one place, as members of a str-valued enumeration: a member is a str
+        # equal to its value (and hashes like it), while str(member) is 'Refs.MYTYPE'
+        MYTYPE = "user.mytype_file"
+
     class MyFileCodec(FileCodecProtocol):
         def ref(self):
-            return ProtocolRef("user.mytype_file")
+            return Refs.MYTYPE
 
         def handled_types(self):
             return [STU.from_type(MyType)]
